@@ -339,6 +339,23 @@ def main_flow(pr):
     return out
 
 
+def canaries(pr):
+    def blank_row_inside_table_accepted(pr):
+        f, lp = row_loop(pr)
+        if lp is None:
+            return []
+        t, paths = build_table(lp)
+        begin, end, empty = t.atom(BEGIN), t.atom(END), t.atom(EMPTY)
+        in_table = z3.Bool("some:current_table_type")
+        ax = [z3.Not(z3.And(begin, end)), z3.Not(z3.And(begin, empty)), z3.Not(z3.And(end, empty))]
+        live = [p for p in paths if D.feasible(ax + [in_table, empty] + p.cond)]
+        goal = z3.And(*[z3.Implies(z3.And(*p.cond) if p.cond else z3.BoolVal(True), z3.BoolVal(not p.raises())) for p in live]) if live else z3.BoolVal(False)
+        return [VC("canary", "case", "empty_first_cell_inside_a_table_is_accepted", ax + [in_table, empty], goal, REL, 0)]
+
+    def swallowing_handler_ok(pr):
+        return [A.bvc("canary", "flow", "header_detection_handler_reraises", False, REL)]
+    return [("blank_row_inside_a_table_accepted_must_fail", blank_row_inside_table_accepted), ("a_swallowing_handler_is_not_a_reraise", swallowing_handler_ok)]
+
 MANIFEST_ENTRY = {
     "category": "other",
     "text": ("Field faults: 'normal return => valid' postconditions of the three real transaction constructors and TransactionSet.add_entry proved by symbolic "
